@@ -127,7 +127,8 @@ ITEMS = [
             Res::Val(k) => (r is Ok && r->Ok_0 == Either::<bool, Expr>::Left(k == vbool(true))) || (r is Err && r->Err_0 is RecursionLimit),
             Res::Unk => true,
             _ => r is Err,
-        }''')]),
+        }'''), ('residual', 'ppolicy(self, p.spec_env(), p.spec_condition(), r)')],
+       proof_start='proof { reveal(pval); reveal(pres); reveal(perr); }'),
     Fn(EVAL, "impl<'e> Evaluator<'e> > fn partial_interpret", wrap=W, attrs=NODEC, props=['C02', 'C13'],
        ensures=[('sem', 'agrees_pv(r, sem(self, *slots, *expr))'), ('residual', 'psound(self, *slots, *expr, r)')],
        proof_start='proof { lemma_kind_rules(self, *slots); }',
@@ -272,4 +273,4 @@ ITEMS = [
        rewrites=[cmp_rw(r'\bt1', r't2\b', 'vx_etype')]),
 ]
 VERUS_ARGS = ['--multiple-errors', '3']
-CANARIES = []
+CANARIES = ['get_attr', 'lemmas:canaries.rs']
